@@ -61,6 +61,13 @@ type c14Wire struct {
 	capType             byte
 	capWant             int
 	capBuf              []byte
+	// fed: bytes fed so far (preface included). holdStream != 0: the reader of
+	// this direction gets nothing from the HEADERS frame that opens that stream
+	// onwards (holdAt = offset of that frame's first byte, -1 until it is
+	// written) until the hold is released: "these frames are still in flight".
+	fed        int
+	holdStream uint32
+	holdAt     int
 }
 
 func (s *c14Wire) feed(p []byte) {
@@ -68,11 +75,13 @@ func (s *c14Wire) feed(p []byte) {
 		if s.skip > 0 {
 			n := min(s.skip, len(p))
 			s.skip -= n
+			s.fed += n
 			p = p[n:]
 			continue
 		}
 		if s.payload > 0 {
 			n := min(s.payload, len(p))
+			s.fed += n
 			if s.capWant > 0 {
 				k := min(s.capWant, n)
 				s.capBuf = append(s.capBuf, p[:k]...)
@@ -93,11 +102,15 @@ func (s *c14Wire) feed(p []byte) {
 		}
 		n := copy(s.hdr[s.nh:], p)
 		s.nh += n
+		s.fed += n
 		p = p[n:]
 		if s.nh == 9 {
 			s.nh = 0
 			l := int(s.hdr[0])<<16 | int(s.hdr[1])<<8 | int(s.hdr[2])
 			t := s.hdr[3]
+			if id := (uint32(s.hdr[5])<<24 | uint32(s.hdr[6])<<16 | uint32(s.hdr[7])<<8 | uint32(s.hdr[8])) & (1<<31 - 1); FrameType(t) == FrameHeaders && s.holdStream != 0 && id == s.holdStream && s.holdAt < 0 {
+				s.holdAt = s.fed - 9
+			}
 			s.payload = l
 			if t < 16 {
 				s.types[t]++
@@ -153,6 +166,7 @@ type c14Half struct {
 	rclosed bool // reader closed: writes fail, pending reads fail
 	gated   bool // delivery held back: reads block although bytes are queued
 	reads   int  // Read calls that returned data so far
+	rdAbs   int  // bytes handed to the reader so far
 	short   map[int]int
 	fired   int // short reads that really truncated
 	wire    c14Wire
@@ -161,6 +175,7 @@ type c14Half struct {
 func c14NewHalf(preface bool) *c14Half {
 	h := &c14Half{}
 	h.wire.rstCode, h.wire.goAwayCode = -1, -1
+	h.wire.holdAt = -1
 	h.cond = sync.NewCond(&h.mu)
 	if preface {
 		h.wire.skip = len(ClientPreface)
@@ -168,10 +183,34 @@ func c14NewHalf(preface bool) *c14Half {
 	return h
 }
 
+// avail is the number of queued bytes the reader may have now (mu held).
+func (h *c14Half) avail() int {
+	n := len(h.buf) - h.off
+	if h.wire.holdAt >= 0 && !h.wclosed {
+		n = min(n, h.wire.holdAt-h.rdAbs)
+	}
+	return n
+}
+
+// hold keeps everything from the HEADERS frame opening the stream onwards
+// away from the reader until releaseHold.
+func (h *c14Half) hold(stream uint32) {
+	h.mu.Lock()
+	h.wire.holdStream = stream
+	h.mu.Unlock()
+}
+
+func (h *c14Half) releaseHold() {
+	h.mu.Lock()
+	h.wire.holdStream, h.wire.holdAt = 0, -1
+	h.cond.Broadcast()
+	h.mu.Unlock()
+}
+
 func (h *c14Half) read(p []byte) (int, error) {
 	h.mu.Lock()
 	defer h.mu.Unlock()
-	for (h.off == len(h.buf) || h.gated) && !h.wclosed && !h.rclosed {
+	for (h.avail() == 0 || h.gated) && !h.wclosed && !h.rclosed {
 		h.cond.Wait()
 	}
 	if h.rclosed {
@@ -185,13 +224,14 @@ func (h *c14Half) read(p []byte) (int, error) {
 	}
 	idx := h.reads
 	h.reads++
-	n := min(len(p), len(h.buf)-h.off)
+	n := min(len(p), h.avail())
 	if k, ok := h.short[idx]; ok && n > k {
 		n = k
 		h.fired++
 	}
 	copy(p, h.buf[h.off:h.off+n])
 	h.off += n
+	h.rdAbs += n
 	if h.off == len(h.buf) {
 		h.buf, h.off = h.buf[:0], 0
 	}
@@ -447,6 +487,8 @@ type c14Seen struct {
 	trailer    http.Header
 	preTrailer []string // keys announced before the body was read
 	writeErr   error
+	conn       int  // index of the connection the request arrived on (shutdown part)
+	readDone   bool // the handler's read of the request body has returned
 }
 
 type c14Stats struct {
@@ -602,6 +644,84 @@ func (r *c14CliResult) getStage() string {
 
 const c14Link = "</style.css>; rel=preload; as=style"
 
+// c14Handler is the handler of every part: it records exactly what it
+// received (record is called once per invocation, before anything else) and
+// sends the response the case prescribes.
+func c14Handler(x *c14Case, resHdr, resTrl http.Header, resBody []byte, record func(*c14Seen)) http.Handler {
+	return http.HandlerFunc(func(rw http.ResponseWriter, r *http.Request) {
+		seen := &c14Seen{}
+		record(seen)
+		seen.method, seen.uri, seen.host, seen.proto = r.Method, r.RequestURI, r.Host, r.Proto
+		seen.header = r.Header.Clone()
+		seen.cl = r.ContentLength
+		for k := range r.Trailer {
+			seen.preTrailer = append(seen.preTrailer, k)
+		}
+		h := rw.Header()
+		for k, vv := range resHdr {
+			h[k] = append([]string(nil), vv...)
+		}
+		h["Content-Type"] = []string{"application/x-c14"}
+		if x.ResDecl {
+			h["Content-Length"] = []string{strconv.Itoa(len(resBody))}
+		}
+		if x.ResTrl >= 0 && len(resTrl) > 0 {
+			keys := make([]string, 0, len(resTrl))
+			for k := range resTrl {
+				keys = append(keys, k)
+			}
+			sort.Strings(keys)
+			if len(keys) > 3 {
+				// two Trailer fields, one of them a list
+				h["Trailer"] = []string{keys[0], strings.Join(keys[1:], ", ")}
+			} else {
+				h["Trailer"] = []string{strings.Join(keys, ",")}
+			}
+		}
+		fl, _ := rw.(http.Flusher)
+		readReq := func() {
+			seen.body, seen.bodyErr = io.ReadAll(r.Body)
+			seen.trailer = r.Trailer.Clone()
+			seen.readDone = true
+		}
+		if x.Order == 0 {
+			readReq()
+		}
+		if x.Info {
+			h["Link"] = []string{c14Link}
+			rw.WriteHeader(103)
+		}
+		rw.WriteHeader(x.Status)
+		if x.Order == 1 {
+			if fl != nil {
+				fl.Flush()
+			}
+			readReq()
+		}
+		rest := resBody
+		for len(rest) > 0 {
+			n := len(rest)
+			if x.ResChunk > 0 && n > x.ResChunk {
+				n = x.ResChunk
+			}
+			if _, err := rw.Write(rest[:n]); err != nil {
+				seen.writeErr = err
+				break
+			}
+			rest = rest[n:]
+			if x.ResFlush && fl != nil {
+				fl.Flush()
+			}
+		}
+		for k, vv := range resTrl {
+			if x.ResTrl < 0 {
+				k = http.TrailerPrefix + k
+			}
+			h[k] = append([]string(nil), vv...)
+		}
+	})
+}
+
 func c14Exchange(vw *vx.W, x *c14Case) (st c14Stats, completed bool) {
 	c2s, s2c := c14NewHalf(true), c14NewHalf(false)
 	w := c14Failer{vw, x, s2c}
@@ -645,78 +765,10 @@ func c14Exchange(vw *vx.W, x *c14Case) (st c14Stats, completed bool) {
 	// ---- server
 	var seenMu sync.Mutex
 	var seenAll []*c14Seen
-	handler := http.HandlerFunc(func(rw http.ResponseWriter, r *http.Request) {
-		seen := &c14Seen{}
+	handler := c14Handler(x, resHdr, resTrl, resBody, func(seen *c14Seen) {
 		seenMu.Lock()
 		seenAll = append(seenAll, seen)
 		seenMu.Unlock()
-		seen.method, seen.uri, seen.host, seen.proto = r.Method, r.RequestURI, r.Host, r.Proto
-		seen.header = r.Header.Clone()
-		seen.cl = r.ContentLength
-		for k := range r.Trailer {
-			seen.preTrailer = append(seen.preTrailer, k)
-		}
-		h := rw.Header()
-		for k, vv := range resHdr {
-			h[k] = append([]string(nil), vv...)
-		}
-		h["Content-Type"] = []string{"application/x-c14"}
-		if x.ResDecl {
-			h["Content-Length"] = []string{strconv.Itoa(len(resBody))}
-		}
-		if x.ResTrl >= 0 && len(resTrl) > 0 {
-			keys := make([]string, 0, len(resTrl))
-			for k := range resTrl {
-				keys = append(keys, k)
-			}
-			sort.Strings(keys)
-			if len(keys) > 3 {
-				// two Trailer fields, one of them a list
-				h["Trailer"] = []string{keys[0], strings.Join(keys[1:], ", ")}
-			} else {
-				h["Trailer"] = []string{strings.Join(keys, ",")}
-			}
-		}
-		fl, _ := rw.(http.Flusher)
-		readReq := func() {
-			seen.body, seen.bodyErr = io.ReadAll(r.Body)
-			seen.trailer = r.Trailer.Clone()
-		}
-		if x.Order == 0 {
-			readReq()
-		}
-		if x.Info {
-			h["Link"] = []string{c14Link}
-			rw.WriteHeader(103)
-		}
-		rw.WriteHeader(x.Status)
-		if x.Order == 1 {
-			if fl != nil {
-				fl.Flush()
-			}
-			readReq()
-		}
-		rest := resBody
-		for len(rest) > 0 {
-			n := len(rest)
-			if x.ResChunk > 0 && n > x.ResChunk {
-				n = x.ResChunk
-			}
-			if _, err := rw.Write(rest[:n]); err != nil {
-				seen.writeErr = err
-				break
-			}
-			rest = rest[n:]
-			if x.ResFlush && fl != nil {
-				fl.Flush()
-			}
-		}
-		for k, vv := range resTrl {
-			if x.ResTrl < 0 {
-				k = http.TrailerPrefix + k
-			}
-			h[k] = append([]string(nil), vv...)
-		}
 	})
 	h1 := &http.Server{ErrorLog: log.New(logw, "srv: ", 0)}
 	h2 := &Server{
@@ -917,7 +969,13 @@ func c14Exchange(vw *vx.W, x *c14Case) (st c14Stats, completed bool) {
 // c14Compare is the oracle for one request/response pair.
 func c14Compare(fail func(sig, format string, a ...any), x *c14Case, seen *c14Seen, cr1 *c14CliResult,
 	reqHdr, reqTrl http.Header, reqBody []byte, resHdr, resTrl http.Header, resBody []byte, ctxt func() string) {
-	// ---- request side
+	c14CompareReq(fail, x, seen, reqHdr, reqTrl, reqBody, ctxt)
+	c14CompareRes(fail, x, cr1, resHdr, resTrl, resBody, ctxt)
+}
+
+// c14CompareReq: the handler observed exactly the request that was sent.
+func c14CompareReq(fail func(sig, format string, a ...any), x *c14Case, seen *c14Seen,
+	reqHdr, reqTrl http.Header, reqBody []byte, ctxt func() string) {
 	if seen.method != x.Method {
 		fail("C14/request/method", "handler saw method %q, sent %q", seen.method, x.Method)
 	}
@@ -959,8 +1017,11 @@ func c14Compare(fail func(sig, format string, a ...any), x *c14Case, seen *c14Se
 	if len(reqTrl) > 0 && len(seen.preTrailer) != len(reqTrl) {
 		fail("C14/request/trailer-announcement", "handler saw %d announced trailer keys before reading the body, client declared %d", len(seen.preTrailer), len(reqTrl))
 	}
+}
 
-	// ---- response side
+// c14CompareRes: the client received exactly the handler's response.
+func c14CompareRes(fail func(sig, format string, a ...any), x *c14Case, cr1 *c14CliResult,
+	resHdr, resTrl http.Header, resBody []byte, ctxt func() string) {
 	res := cr1.res
 	if res.StatusCode != x.Status {
 		fail("C14/response/status", "client saw status %d, handler wrote %d", res.StatusCode, x.Status)
